@@ -448,6 +448,20 @@ impl BaseFilter {
         }
     }
 
+    /// Whether offset, frequency and delay estimates are all finite and small enough
+    /// to be expressed as a [`Duration`]. Noise-free, contradictory or extreme
+    /// measurements can make the covariance lose positive definiteness, after which
+    /// the gain, and with it the state, grows without bound.
+    fn is_usable(&self) -> bool {
+        // in seconds; anything near this is far outside of what Time can represent
+        const MAX_STATE: f64 = 1e15;
+
+        self.0
+            .as_ref()
+            .map(|inner| (0..3).all(|i| inner.state.ventry(i).abs() < MAX_STATE))
+            .unwrap_or(true)
+    }
+
     fn offset(&self) -> f64 {
         self.0
             .as_ref()
@@ -617,6 +631,8 @@ impl Filter for KalmanFilter {
             );
         }
 
+        self.restart_if_diverged();
+
         self.display_state();
 
         self.steer(clock)
@@ -626,6 +642,7 @@ impl Filter for KalmanFilter {
         // Remote has gone away, set frequency as close as possible to our best estimate
         // of correct
         self.change_frequency(0.0, clock);
+        self.restart_if_diverged();
         super::FilterUpdate {
             next_update: None,
             mean_delay: Some(Duration::from_seconds(self.running_filter.mean_delay())),
@@ -647,6 +664,16 @@ impl Filter for KalmanFilter {
 }
 
 impl KalmanFilter {
+    /// A diverged estimate cannot be steered on (and cannot even be reported), start
+    /// estimating from scratch instead.
+    fn restart_if_diverged(&mut self) {
+        if !self.running_filter.is_usable() || !self.wander_filter.is_usable() {
+            log::warn!("Clock filter diverged, restarting it");
+            self.running_filter = BaseFilter::new();
+            self.wander_filter = BaseFilter::new();
+        }
+    }
+
     fn change_frequency<C: crate::Clock>(&mut self, target: f64, clock: &mut C) {
         if let Some(cur_frequency) = self.cur_frequency {
             let error_ppm = clamp_adjustment(
@@ -709,6 +736,7 @@ impl KalmanFilter {
             let target = (-desired_adjust * 1e6 / self.config.steer_time.seconds())
                 .clamp(-self.config.max_steer, self.config.max_steer);
             self.change_frequency(target, clock);
+            self.restart_if_diverged();
             super::FilterUpdate {
                 next_update: Some(core::time::Duration::from_secs_f64(
                     self.config.steer_time.seconds(),
@@ -717,6 +745,7 @@ impl KalmanFilter {
             }
         } else {
             self.step(clock, error);
+            self.restart_if_diverged();
             super::FilterUpdate {
                 next_update: None,
                 mean_delay: Some(Duration::from_seconds(self.running_filter.mean_delay())),
